@@ -427,6 +427,12 @@ pub fn norm_msg(m: &str) -> String {
 
 impl C18 {
     fn exec_generic<G: GraphLike>(&self, sc: &Sc, mut exec: Decider, out: &mut RunOut) -> Vec<u64> {
+        // sticky randomness in one run of twelve (see Decider::sticky): retry loops and
+        // "pick two different ..." code meet streaks of equal draws
+        if sc.ids.len() <= 100 && exec.coin("rng.mode", 1, 12) {
+            exec.sticky = 1 + exec.choose("rng.mem", 3) as u8;
+            out.probe("sticky_randomness");
+        }
         let g: G = build(sc);
         let n = sc.ids.len();
         match &sc.mode {
